@@ -205,7 +205,12 @@ func c33StateOf(w *world.World, blank bool) string {
 
 func c33Blank(d string) string {
 	d = c33TimeRe.ReplaceAllString(d, "=T|")
-	return c33IDRe.ReplaceAllString(d, "#")
+	d = c33IDRe.ReplaceAllString(d, "#")
+	// the dump orders rows by their unblanked text (timestamp and id ranks), which depends on whether
+	// two writes fell into the same millisecond of real time: compare the rows as a sorted multiset
+	lines := strings.Split(d, "\n")
+	sort.Strings(lines)
+	return strings.Join(lines, "\n")
 }
 
 type c33Result struct {
